@@ -159,6 +159,16 @@ func (t *Tokenizer) tokenizeBuffer(buf []byte, last bool) {
 	depth := len(t.starts)
 	for off = 0; off < len(buf); off++ {
 		b = buf[off]
+		if 256 < len(t.mode) && t.mode[256] == 't' {
+			switch b {
+			case ':', '[', '{', '/', '"', '\'':
+				// A token continued from an earlier buffer ends here. Handle
+				// that the same way the scan in tokenStart does.
+				t.addToken(string(t.tmp))
+				off--
+				goto deliver
+			}
+		}
 		switch t.mode[b] {
 		case skipNewline:
 			t.line++
@@ -439,6 +449,7 @@ func (t *Tokenizer) tokenizeBuffer(buf []byte, last bool) {
 		case charErr:
 			t.byteError(off, t.mode, b)
 		}
+	deliver:
 		if depth == 0 && 256 < len(t.mode) && t.mode[256] == 'v' {
 			t.mi = 0
 			if t.OnlyOne {
